@@ -160,9 +160,22 @@ pub fn fold_all(s: &mut Sem) -> u64 {
     n
 }
 
+/// A class write that fails inside an attribute body, made on the calling thread (C07 / C13 / C14 make one before their
+/// own class writes in some runs: what a failed write leaves behind on the thread must not show in the next one).
+/// Returns true when the write failed as intended.
+pub(crate) fn poison_write() -> bool {
+    match poison_tree() {
+        Some(t) => {
+            let mut junk = Vec::new();
+            matches!(no_panic(|| duke::write_class(&mut junk, t)), Ok(Err(_)))
+        }
+        None => false,
+    }
+}
+
 /// A class the reader accepts and the writer refuses inside `Code`: `iconst_0; lookupswitch {5: L, 1: L, default: L}; L: return`
 /// with the keys out of order. `None` when the reader refuses it.
-fn poison_tree() -> Option<&'static duke::tree::class::ClassFile> {
+pub(crate) fn poison_tree() -> Option<&'static duke::tree::class::ClassFile> {
     static POISON: std::sync::OnceLock<Option<duke::tree::class::ClassFile>> = std::sync::OnceLock::new();
     POISON
         .get_or_init(|| {
